@@ -52,6 +52,7 @@ ALPHABET = [
     "ungroup_ports", "ungroup_ports_group", "ace_ungroup_ports", "tcam", "set_item_seq",
     "set_remark_text", "set_members", "set_type", "conv_obj", "ag_resequence", "set_note", "set_ports", "scribble_ipnets",
     "foreign_parse", "resequence_group", "nested_resequence", "set_addr", "set_option",
+    "scribble_names",
 ]
 
 BIAS = {
@@ -59,6 +60,7 @@ BIAS = {
             "resequence": 1, "set_port_nr": 1, "set_protocol_nr": 1, "copy": 1,
             "export_import": 1, "reparse": 1, "set_members": 1, "insert": 2, "append": 1,
             "set_ports": 1, "items_self": 1, "set_item_seq": 2, "reverse": 1, "sort": 1,
+            "scribble_names": 1,
             "permute_popins": 1},
     "C04": {"shadow_triple": 10, "delete_shadow": 3, "shading": 3, "shadow_of": 1, "group": 2,
             "ungroup": 1, "resequence": 1, "insert": 2, "append": 2, "set_platform": 1,
@@ -138,7 +140,7 @@ class AclMachine(Machine):
         cfg = dict(
             steps=w.randint(2, 40 if long else 14),
             platform=platform,
-            version=w.choice(["0", "0", "15.2", "16.9", "9.3"]),
+            version=w.choice(["0", "0", "15.2", "16.9", "9.3", "17.3"]),
             max_lines=w.choice([3, 5, 8, 12]) if long else w.choice([3, 5, 8]),
             numbered=w.choice(["none", "all", "all", "some"]),
             names=w.random() < 0.6,
@@ -1314,7 +1316,7 @@ class AclMachine(Machine):
         multi = op["cls"] == "Ace" and needs_split(Reader(a, "0", strict=True)
                                                    .ace_or_remark(op["line"]))
         try:
-            obj.platform = b
+            obj.platform = op.get("spell") or b
         except DOCUMENTED as ex:
             if multi and b == "nxos":
                 self.faults["abort[conv_obj]"] += 1
@@ -1815,6 +1817,8 @@ class AclMachine(Machine):
             t, kind, fixed = plan.pop(0)
             op = self._gen_op(kind, self.slots[t % len(self.slots)], st)
             op.update(fixed)
+            if "p" in fixed:
+                op.pop("spell", None)  # the long name was drawn for another target
             op["t"] = t
             op["memo"] = self._memo_schedule(st)
             return op
@@ -1822,6 +1826,8 @@ class AclMachine(Machine):
         op = self._gen_op(kind, self.slots[t], st)
         if kind == "scribble_ipnets":
             self._plan = [(t, "shadow_triple", {})]
+        if kind == "scribble_names":
+            self._plan = [(t, "set_platform", {})]
         if kind == "ungroup_ports" and self.prop in ("C19", "C17") and s.random() < 0.4:
             # split, put the very text of a split entry back in, change what the text does not
             # carry (group members), split again
@@ -1890,7 +1896,11 @@ class AclMachine(Machine):
             p = other if s.random() < 0.8 else m.platform
             if m.type == "standard" and p == "nxos" and not cfg["aborts"]:
                 p = "ios"
-            return dict(op=kind, p=p)
+            op_ = dict(op=kind, p=p)
+            if s.random() < 0.15:
+                # the long platform names the library accepts mean the same platforms
+                op_["spell"] = {"ios": "cisco_ios"}.get(p) or s.choice(["cisco_nxos", "cnx"])
+            return op_
         if kind in ("set_port_nr", "set_protocol_nr"):
             return dict(op=kind, b=s.random() < 0.5)
         if kind == "set_type":
@@ -1944,7 +1954,10 @@ class AclMachine(Machine):
             return dict(op=kind, reverse=s.random() < 0.25,
                         key=s.choice([None, None, None, "seq", "line"]))
         if kind == "permute_setter":
-            return dict(op=kind, keys=[s.randint(0, 99) for _ in range(max(n, 1))])
+            return dict(op=kind, keys=[s.randint(0, 99) for _ in range(max(n, 1))],
+                        as_=s.choice(["list", "list", "tuple", "gen"]))
+        if kind == "items_self":
+            return dict(op=kind, as_=s.choice(["list", "list", "tuple", "gen"]))
         if kind == "permute_popins":
             return dict(op=kind, i=s.randint(0, 50), j=s.randint(0, 50))
         if kind in ("pop", "delitem", "remove", "delete", "ungroup_ports_group"):
@@ -2055,7 +2068,10 @@ class AclMachine(Machine):
                     head = "object-group ip address G" if plat == "nxos" else \
                         "object-group network G"
                     line = "\n".join([head] + ["  " + x[0] for x in mem])
-            return dict(op=kind, cls=cls, platform=plat, line=line, ncw=ncw)
+            op_ = dict(op=kind, cls=cls, platform=plat, line=line, ncw=ncw)
+            if s.random() < 0.2:
+                op_["spell"] = "cisco_ios" if plat == "nxos" else s.choice(["cisco_nxos", "cnx"])
+            return op_
         if kind == "nested_resequence":
             plat = s.choice(["ios", "nxos"])
             pre = s.choice(["none", "all", "some"])
